@@ -805,6 +805,10 @@ func handleType(params internal.HandlerFuncParams) ([]byte, error) {
 	}
 
 	value := params.GetValues(params.Context, []string{key})[key]
+	// The key holds no value: it expired between the existence check and the read, or only a deadline is stored.
+	if value == nil {
+		return nil, fmt.Errorf("key %s does not exist", key)
+	}
 	t := reflect.TypeOf(value)
 	type_string := ""
 	switch t.Kind() {
